@@ -223,7 +223,7 @@ def gkey(g):
 
 
 def chain_text(chain):
-    return "+".join(f"{c}.{v}" if c != "broken" else f"broken[{v}]" for c, v in chain) or "direct"
+    return "+".join((c if v is None else f"{c}.{v}") if c != "broken" else f"broken[{v}]" for c, v in chain) or "direct"
 
 
 def reference_swaps(g):
@@ -270,7 +270,7 @@ class Atom:
         """chain without one occurrence of each of the atom's carriers, or None if they do not all occur."""
         rest = [tuple(c) for c in chain]
         for a in self.carriers:
-            hit = next((c for c in rest if c == a or (self.mod_import and c[0] == a[0])), None)
+            hit = next((c for c in rest if c == a or ((self.mod_import or a[1] is None) and c[0] == a[0])), None)
             if hit is None:
                 return None
             rest.remove(hit)
@@ -291,6 +291,28 @@ def generalise(g, atom_chain):
             relevant[dim] = False
         else:
             relevant[dim] = True
+    # does the variant of each carrier matter?  (all variants of the carrier fail in this context -> named without variant)
+    from lib import gen_flow
+    named = [list(c) for c in atom_chain]
+    if not relevant.get("imp"):
+        for i, (c, v) in enumerate(atom_chain):
+            all_fail, tested = True, 0
+            for w in range(gen_flow.VARIANTS[c]):
+                if w == v:
+                    continue
+                alt = [list(x) for x in cfg["chain"]]
+                alt[i] = [c, w]
+                probe = norm_gadget(dict(cfg, chain=alt))
+                if probe["chain"] == cfg["chain"]:
+                    continue
+                tested += 1
+                r = yield probe
+                if r is not False:
+                    all_fail = False
+                    break
+            if all_fail and tested:
+                named[i][1] = None
+    atom_chain = named
     sk = g["sk"] if relevant.get("sk", True) else None
     tk = g["tk"] if relevant.get("tk", True) else None
     tk_txt = "any" if tk is None else tk + (str(g["pos"]) if tk in ("call", "mcall") and g["pos"] else "")
